@@ -34,23 +34,49 @@ def domain (t : Transport) (m : Method) (o : Outcome) : Bool :=
 def errMap (t : Transport) (m : Method) (o : Outcome) : Act :=
   tbl3 errTbl .na t.toNat m.toNat o.toNat
 
-/-- OBSERVED act after the loss `(lm, lo)` has been delivered -/
-def after2 (t : Transport) (lm : Method) (lo : Outcome) (m : Method) (o : Outcome) : Act :=
-  match afterDev.lookup (key5 t lm lo m o) with
+/-- only the Telnet transports have a control buffer -/
+def effCtrl (t : Transport) (c : Ctrl) : Ctrl := if t == .telnet || t == .asynctelnet then c else .c0
+
+/-- OBSERVED act of an opened transport without a recorded loss whose control buffer is in state `c` -/
+def errMapC (t : Transport) (c : Ctrl) (m : Method) (o : Outcome) : Act :=
+  match errDevC.lookup (keyC3 (effCtrl t c) t m o) with
   | some a => a
   | none => errMap t m o
 
+/-- OBSERVED act after the loss `(lm, lo)` has been delivered (control buffer in state `c` since then) -/
+def after2 (t : Transport) (c : Ctrl) (lm : Method) (lo : Outcome) (m : Method) (o : Outcome) : Act :=
+  match afterDev.lookup (keyC5 (effCtrl t c) t lm lo m o) with
+  | some a => a
+  | none => errMapC t c m o
+
 /-- OBSERVED `isalive()` right after the loss `(lm, lo)` -/
-def aliveAfter (t : Transport) (lm : Method) (lo : Outcome) : Act :=
-  (aliveAfterTbl.lookup (key3 t lm lo)).getD .na
+def aliveAfter (t : Transport) (c : Ctrl) (lm : Method) (lo : Outcome) : Act :=
+  (aliveAfterTbl.lookup (keyC3 (effCtrl t c) t lm lo)).getD .na
 
 /-- outcomes a read can still have after the loss `(lm, lo)` (sticky readers), head = default -/
 def postRead (t : Transport) (lm : Method) (lo : Outcome) : List Outcome :=
   (postReadTbl.lookup (key3 t lm lo)).getD []
 
+/-- the call delivers bytes -/
+def Outcome.dataLike : Outcome → Bool
+  | .data | .more | .dataIac | .dataIacVerb | .moreIac | .moreIacVerb => true
+  | _ => false
+
+/-- a chunk that does not complete the channel's read loop -/
+def Outcome.isMore : Outcome → Bool
+  | .more | .moreIac | .moreIacVerb => true
+  | _ => false
+
+/-- state of the control buffer after a chunk with this outcome -/
+def Outcome.ctrlAfter : Outcome → Option Ctrl
+  | .data | .more => some .c0
+  | .dataIac | .moreIac => some .cIac
+  | .dataIacVerb | .moreIacVerb => some .cIacVerb
+  | _ => Option.none
+
 /-- a read with this outcome never delivers bytes (on the sim transport an empty read is a quiet device) -/
 def neverData (t : Transport) (o : Outcome) : Bool :=
-  o != .data && o != .more && o != .none && !(t == .sim && o == .empty)
+  !o.dataLike && o != .none && !(t == .sim && o == .empty)
 
 /-- ... and the session is gone for good.  A socket.timeout of a blocking socket fails the call only; a
     TimeoutError out of an asyncio StreamReader is the kernel's ETIMEDOUT delivered by connection_lost. -/
@@ -61,6 +87,7 @@ def setsLoss (t : Transport) (o : Outcome) : Bool := neverData t o && (o != .tim
 structure TState where
   opened : Bool := true
   lossBy : Option (Method × Outcome) := none
+  ctrl : Ctrl := .c0
   deriving DecidableEq, Repr
 
 /-- what the library really delivers: once a loss has been delivered a read can only have one of the
@@ -75,10 +102,16 @@ def effOutcome (t : Transport) (st : TState) (m : Method) (o : Outcome) : Outcom
 def tAct (t : Transport) (st : TState) (m : Method) (o : Outcome) : Act :=
   if !st.opened then errMap t m .none          -- `if not self.session: raise ScrapliConnectionNotOpened`
   else match st.lossBy with
-    | none => errMap t m o
-    | some (lm, lo) => after2 t lm lo m (effOutcome t st m o)
+    | none => errMapC t st.ctrl m o
+    | some (lm, lo) => after2 t st.ctrl lm lo m (effOutcome t st m o)
 
-def tNext (t : Transport) (st : TState) (m : Method) (o : Outcome) : TState :=
+/-- the control buffer after the call: a chunk read on a live session moves it; nothing completes a
+    pending sequence once the session is lost -/
+def ctrlNext (st : TState) (m : Method) (o : Outcome) : Ctrl :=
+  if st.opened && st.lossBy.isNone && m == .read then (o.ctrlAfter).getD st.ctrl else st.ctrl
+
+/-- `opened` and `lossBy` after the call -/
+def tNext0 (t : Transport) (st : TState) (m : Method) (o : Outcome) : TState :=
   if !st.opened then st
   else
     let st1 : TState :=
@@ -86,12 +119,15 @@ def tNext (t : Transport) (st : TState) (m : Method) (o : Outcome) : TState :=
       else st
     if m == .close then { st1 with opened := false } else st1
 
+def tNext (t : Transport) (st : TState) (m : Method) (o : Outcome) : TState :=
+  { tNext0 t st m o with ctrl := ctrlNext st m o }
+
 /-- `isalive()` in state `st` (the library's aliveness primitive answering as it does after that loss) -/
 def isaliveNow (t : Transport) (st : TState) : Act :=
   if !st.opened then errMap t .isalive .none
   else match st.lossBy with
-    | none => errMap t .isalive .data
-    | some (lm, lo) => aliveAfter t lm lo
+    | none => errMapC t st.ctrl .isalive .data
+    | some (lm, lo) => aliveAfter t st.ctrl lm lo
 
 /-! ### layer 2: channel programs -/
 
@@ -159,7 +195,7 @@ def writeStep (cf : Cfg) (p : Program) (a : Act) (st' : TState) (ncalls : Nat) (
 /-- one iteration of a read loop `s` (then `p`) whose `transport.read` had outcome `o` and act `a` -/
 def readStep (cf : Cfg) (s : Step) (p : Program) (o : Outcome) (a : Act) (st' : TState) : Cfg ⊕ Res :=
   match a.rk with
-  | .data => .inl ⟨if o == .more then s :: p else p, st', cf.calls + 1, cf.ticks + 1⟩
+  | .data => .inl ⟨if o.isMore then s :: p else p, st', cf.calls + 1, cf.ticks + 1⟩
   | .empty => .inl ⟨s :: p, st', cf.calls + 1, cf.ticks + 1⟩
   | .busy => .inl ⟨s :: p, st', cf.calls + 1, cf.ticks⟩      -- no suspension point: no time passes for the timeout
   | .exc => .inr (cf.fail st' a (cf.calls + 1))
@@ -225,30 +261,31 @@ def Act.readOK : Act → Bool
   | .raiseS c => c != .other
   | _ => false
 
-/-- condition on the fresh rows -/
-def freshOK (t : Transport) (m : Method) (o : Outcome) : Bool :=
+/-- condition on the rows without a recorded loss, control buffer in state `c` -/
+def freshOK (t : Transport) (c : Ctrl) (m : Method) (o : Outcome) : Bool :=
   !domain t m o ||
-    ((errMap t m o).ok
-      && (!(m == .read) || (errMap t m o).readOK)
-      && (!(m == .read && neverData t o) || (errMap t m o).readLossOK)
-      && (!(m == .read && errMap t m o == .retEmptyBusy) || setsLoss t o))
+    ((errMapC t c m o).ok
+      && (!(m == .read) || (errMapC t c m o).readOK)
+      && (!(m == .read && neverData t o) || (errMapC t c m o).readLossOK)
+      && (!(m == .read && errMapC t c m o == .retEmptyBusy) || setsLoss t o))
 
 /-- condition on the rows after the loss `(lm, lo)` -/
-def afterOK (t : Transport) (lm : Method) (lo : Outcome) : Bool :=
+def afterOK (t : Transport) (c : Ctrl) (lm : Method) (lo : Outcome) : Bool :=
   !(domain t lm lo && setsLoss t lo) ||
     (!(postRead t lm lo).isEmpty
-      && (postRead t lm lo).all (fun o => neverData t o && (after2 t lm lo .read o).ok && (after2 t lm lo .read o).readLossOK')
-      && Outcome.all.all (fun o => !domain t .write o || (after2 t lm lo .write o).ok)
-      && Outcome.all.all (fun o => !domain t .close o || (after2 t lm lo .close o).ok))
+      && (postRead t lm lo).all (fun o => neverData t o && (after2 t c lm lo .read o).ok && (after2 t c lm lo .read o).readLossOK')
+      && Outcome.all.all (fun o => !domain t .write o || (after2 t c lm lo .write o).ok)
+      && Outcome.all.all (fun o => !domain t .close o || (after2 t c lm lo .close o).ok))
 
-/-- the error map of `t` is total into the allowed scrapli classes, a lost session never yields data,
-    a busy empty read happens at most once, a None handle raises ScrapliConnectionNotOpened -/
+/-- the error map of `t` is total into the allowed scrapli classes — in every state of the control
+    buffer —, a lost session never yields data, a busy empty read happens at most once, a None handle
+    raises ScrapliConnectionNotOpened -/
 def mapTotalB (t : Transport) : Bool :=
-  (Method.all.all fun m => Outcome.all.all fun o => freshOK t m o)
-  && (Outcome.all.all fun lo => afterOK t .read lo && afterOK t .write lo)
+  (Ctrl.all.all fun c => Method.all.all fun m => Outcome.all.all fun o => freshOK t c m o)
+  && (Ctrl.all.all fun c => Outcome.all.all fun lo => afterOK t c .read lo && afterOK t c .write lo)
   && (errMap t .read .none == .raiseS .notOpened && errMap t .write .none == .raiseS .notOpened
       && errMap t .isalive .none == .retFalse && (errMap t .close .none).ok)
-  && !(errMap t .write .data).isRaise
+  && (Ctrl.all.all fun c => !(errMapC t c .write .data).isRaise)
 
 def mapTotal (t : Transport) : Prop := mapTotalB t = true
 
@@ -256,9 +293,9 @@ instance (t : Transport) : Decidable (mapTotal t) := inferInstanceAs (Decidable 
 
 /-- after every detectable loss `isalive()` is False -/
 def aliveTotalB (t : Transport) : Bool :=
-  Outcome.all.all fun lo =>
-    (!(domain t .read lo && setsLoss t lo) || aliveAfter t .read lo == .retFalse)
-    && (!(domain t .write lo && setsLoss t lo) || aliveAfter t .write lo == .retFalse)
+  Ctrl.all.all fun c => Outcome.all.all fun lo =>
+    (!(domain t .read lo && setsLoss t lo) || aliveAfter t c .read lo == .retFalse)
+    && (!(domain t .write lo && setsLoss t lo) || aliveAfter t c .write lo == .retFalse)
 
 def aliveTotal (t : Transport) : Prop := aliveTotalB t = true
 
@@ -266,7 +303,7 @@ instance (t : Transport) : Decidable (aliveTotal t) := inferInstanceAs (Decidabl
 
 /-- in-domain fresh entries that break totality (witnesses to replay) -/
 def freshBad (t : Transport) : List (Method × Outcome) :=
-  (Method.all.flatMap fun m => Outcome.all.map fun o => (m, o)).filter fun mo => !freshOK t mo.1 mo.2
+  (Method.all.flatMap fun m => Outcome.all.map fun o => (m, o)).filter fun mo => !freshOK t .c0 mo.1 mo.2
 
 /-! ### environments -/
 
